@@ -68,6 +68,9 @@ Schema(c) ==
                                            Tag("flags", TNull(TList(TBool, Unset, Unset)))>>)) @@
     ("More" :> DUnion("na", "Choice", FALSE, <<Tag("extra", I32), Tag("plain", TVoid)>>)) @@
     ("Up" :> DAlias("na", TRef("Upload"), "")) @@
+    \* aliases whose names are not in the canonical capitalisation of the Python backends (RA -> Ra)
+    ("RA" :> DAlias("na", TStr(Unset, Unset, ""), "")) @@
+    ("RB" :> DAlias("na", TRef("RA"), "")) @@
     ("MaybeName" :> DAlias("na", TNull(TRef("Name")), "")) @@
     ("Tree" :> DStruct("na", "", <<Fld("t", I32)>>, <<Sub("leaf_a", "LeafA")>>, TRUE)) @@
     ("LeafA" :> DStruct("na", "Tree", <<Fld("x", TList(TRef("Name"), Unset, Unset))>>, <<>>, FALSE)) @@
@@ -80,7 +83,8 @@ Schema(c) ==
                                    Fld("u64", TNull(TInt("UInt64", Unset, Unset))),
                                    Fld("by_name", TMap(TList(I32, Unset, Unset))),
                                    Fld("holes", TList(TNull(Str), Unset, Unset)),
-                                   Fld("cells", TList(TList(TRef("Entry"), Unset, Unset), Unset, Unset))>>, <<>>, FALSE)) @@
+                                   Fld("cells", TList(TList(TRef("Entry"), Unset, Unset), Unset, Unset)),
+                           Fld("ra", TNull(TRef("RA"))), Fld("rb", TList(TRef("RB"), Unset, Unset))>>, <<>>, FALSE)) @@
     (IF c.ring THEN ("Yb" :> DStruct(NB(c), "", <<Fld("z", TNull(TRef("Zc")))>>, <<>>, FALSE)) @@
                     ("Zc" :> DStruct("nc", "", <<Fld("e", TNull(TRef("Upload")))>>, <<>>, FALSE))
      ELSE <<>>)
@@ -111,6 +115,8 @@ Namespaces(c) == {"na", NB(c), "nc", "nd"}
 \* python_types names a module after its namespace, with an underscore appended to Python reserved words
 PyReserved == {"async", "class", "for", "pass", "while", "break", "continue", "import", "from", "global", "lambda"}
 PyModule(ns) == IF ns \in PyReserved THEN ns \o "_" ELSE ns
+\* the Python backends capitalise names word by word: an all-capitals name keeps only its first capital
+PyName(n) == CASE n = "RA" -> "Ra" [] n = "RB" -> "Rb" [] OTHER -> n
 
 \* ------------------------------------------------------------- imports and loading
 RECURSIVE TypeRefs(_)
@@ -210,7 +216,7 @@ PySurface(c, ns) ==
     IN  [ns |-> ns, pymod |-> PyModule(ns),
          structs |-> {StructSurface(sc, n) : n \in {x \in mine : sc[x].k = "struct"}},
          unions  |-> {UnionSurface(sc, n) : n \in {x \in mine : sc[x].k = "union"}},
-         validators |-> mine,                                          \* <Name>_validator for every type and alias
+         validators |-> {PyName(n) : n \in mine},                      \* <Name>_validator for every type and alias
          class_aliases |-> {n \in mine : sc[n].k = "alias" /\ Under(sc, sc[n].t).k = "ref"},   \* Alias = Class
          aliases |-> {[n |-> n, sym |-> Sym(sc, ns, sc[n].t)] : n \in {x \in mine : sc[x].k = "alias"}},
          routes |-> {[n |-> r.n, ver |-> r.ver, deprecated |-> r.dep # "none", arg |-> r.arg, res |-> r.res,
